@@ -633,7 +633,10 @@ static void gentabs(void)
 		++sz;
 
 	/* Note that this table is alternately defined if ctrl.fulltbl */
-	ptype = optimize_pack(sz);
+	/* With REJECT the entries are indices into yy_acclist, which can be
+	 * much longer than the number of states.
+	 */
+	ptype = optimize_pack(reject ? MAX (sz, numas + 2) : sz);
 	outn ("m4_define([[M4_HOOK_NEED_ACCEPT]], 1)");
 	out_str ("m4_define([[M4_HOOK_ACCEPT_TYPE]], [[%s]])", ptype->name);
 	out_dec ("m4_define([[M4_HOOK_ACCEPT_SIZE]], [[%d]])", sz);
